@@ -432,7 +432,9 @@ def requests(c):
     t = enc_tree(c["tree"])
     f = enc_filter(c["filter"])
     lim = "-" if c["limit"] is None else str(c["limit"])
-    return ["ids %s %s id %s" % (f, lim, t), "ids %s - rev %s" % (f, t), "pruned %s %s" % (f, t), "export %s %s %s" % (f, lim, t)]
+    # the last request goes through the literal stack/queue model (from_disk_iter) with the listing reversed
+    return ["ids %s %s id %s" % (f, lim, t), "ids %s - rev %s" % (f, t), "pruned %s %s" % (f, t), "export %s %s %s" % (f, lim, t),
+            "iterids %s %s rev %s" % (f, lim, t)]
 
 
 def _ids(r):
@@ -442,7 +444,8 @@ def _ids(r):
 
 
 def model(c, resp):
-    res = {"ids": _ids(resp[0]), "ids_nolimit_rev": _ids(resp[1]), "pruned_root": resp[2][3:] if resp[2].startswith("ok ") else resp[2]}
+    res = {"ids": _ids(resp[0]), "ids_nolimit_rev": _ids(resp[1]), "pruned_root": resp[2][3:] if resp[2].startswith("ok ") else resp[2],
+           "iterids": _ids(resp[4])}
     r = resp[3]
     if r.startswith("ok "):
         xs = []
@@ -507,6 +510,8 @@ def oracle(c, ires, mres):
 
 
 def compare(c, ires, mres):
+    if mres["iterids"] != mres["ids"]:
+        return "MODEL: the literal stack/queue model (from_disk_iter) and the recursive model disagree (model bug): %s" % str(mres["iterids"])[:60]
     if isinstance(mres.get("ids_nolimit_rev"), str):
         return "model failed without limit: " + mres["ids_nolimit_rev"]
     if mres["ids_nolimit_rev"]["."] != mres["pruned_root"]:
